@@ -403,7 +403,7 @@ pub fn run(ctx: &mut Ctx) {
     }
     let cases = ctx.tier.pick(400, 8_000);
     ctx.run_random_brief(StreamCfg::new("parsed_ranges", CLASSES, cases).shrink(100), text_strategy, check_text, |c| json!({"flop": cnames(&c.flop), "ranges": c.lists.iter().map(crate::props::c05::list_text).collect::<Vec<_>>()}));
-    ctx.require_class("parsed_ranges", "combo_named_by_two_tokens", cases / 6);
+    ctx.require_class("parsed_ranges", "combo_named_by_two_tokens", cases / 14);
     let cases = ctx.tier.pick(160, 3_000);
     ctx.run_random_brief(StreamCfg::new("huge_prefix", PREFIX_CLASSES, cases).shrink(40), || prefix_strategy(false), check_prefix, |c| json!({"cfg": c.cfg.brief(), "take": c.take}));
     ctx.require_class("huge_prefix", "window_slots_over_2_32", cases / 4);
